@@ -475,19 +475,19 @@ func (e *Ev) binop(op token.Token, a, b Term, n ast.Node) Term {
 		case token.SUB:
 			return res(app("bvsub", a.S, b.S))
 		case token.MUL:
-			return res(app("bvmul", a.S, b.S))
+			return res(app(e.hardOp("bvmul", a.Sort), a.S, b.S))
 		case token.QUO:
 			e.panicIf(smtEq(b.S, bvLit(0, bvWidth(a.Sort))), "division by zero", n)
 			if sg {
-				return res(app("bvsdiv", a.S, b.S))
+				return res(app(e.hardOp("bvsdiv", a.Sort), a.S, b.S))
 			}
-			return res(app("bvudiv", a.S, b.S))
+			return res(app(e.hardOp("bvudiv", a.Sort), a.S, b.S))
 		case token.REM:
 			e.panicIf(smtEq(b.S, bvLit(0, bvWidth(a.Sort))), "division by zero", n)
 			if sg {
-				return res(app("bvsrem", a.S, b.S))
+				return res(app(e.hardOp("bvsrem", a.Sort), a.S, b.S))
 			}
-			return res(app("bvurem", a.S, b.S))
+			return res(app(e.hardOp("bvurem", a.Sort), a.S, b.S))
 		case token.AND:
 			return res(app("bvand", a.S, b.S))
 		case token.OR:
@@ -1466,4 +1466,15 @@ func (e *Ev) assumeQ(c string) {
 		c = fmt.Sprintf("(forall (%s) %s)", strings.Join(e.qvars, " "), c)
 	}
 	e.st.assume(c)
+}
+
+// hardOp: multiplication and division on wide bit-vectors are kept abstract (uninterpreted but
+// named after the operator) in proof queries: code and contract use the same Go operator, so
+// congruence suffices, and bit-blasting two 32-bit multipliers does not terminate. The
+// counterexample search reinstates the real operators.
+func (e *Ev) hardOp(op string, sort string) string {
+	w := bvWidth(sort)
+	name := fmt.Sprintf("go_%s%d", op, w)
+	e.g().Pre.add(fmt.Sprintf("(declare-fun %s (%s %s) %s)", name, sort, sort, sort))
+	return name
 }
